@@ -85,7 +85,8 @@ def step (d : DState) (toks : List String) : DState × String :=
   | ["white", _, s, c] =>
     let (o, s') := whiteChain d.s ((signers nCons (val s)).contains (sid nCons "op")) (Proto.natOf c)
     ({ d with s := s' }, showOutcome o)
-  | "import" :: _ :: th :: s :: rl :: src :: h :: _ :: _ :: ex :: dec :: fields =>
+  | "ethsetup" :: _ => (d, "ok")
+  | "import" :: _ :: th :: s :: rl :: src :: h :: _ :: _ :: ex :: pv :: dec :: fields =>
     let decoded : Option MakeTxParam :=
       match dec, fields with
       | "dec=1", [a, b, c, to, e, m, g] =>
@@ -95,7 +96,8 @@ def step (d : DState) (toks : List String) : DState × String :=
     let inp : VoteInput := {
       src := srcN, signers := signers nCons (val s),
       relayer := if val rl == "bad" then none else some (sid nCons (val rl)),
-      height := Proto.natOf (val h), extra := Proto.bytesOf (val ex), decoded := decoded }
+      height := Proto.natOf (val h), extra := Proto.bytesOf (val ex), decoded := decoded,
+      proofValid := val pv == "1" }
     let env : Env := { height := d.height, mainNet := !d.testNet,
                        doneGate := !d.testNet || d.height ≥ 19954185, txHash := Proto.bytesOf (val th) }
     let res := importExTransfer H (voteOracles H) env d.s srcN inp
